@@ -168,7 +168,11 @@ var (
 	gLabelVals = []string{"a", "b", "core", "page"}
 	gAnnKeys   = []string{"summary", "dashboard"}
 	gFors      = []string{"", "", "5m", "10m"}
-	gCtls      = []string{"disable promql/series", "disable promql/rate", "disable alerts/for", "rule/owner bob"}
+	// every rule-level control comment type: disable, snooze, rule/owner, rule/set (each documented form)
+	gCtls = []string{"disable promql/series", "disable promql/rate", "disable alerts/for", "rule/owner bob", "rule/owner alice",
+		"snooze 2099-01-01T00:00:00Z promql/series", "snooze 2099-06-01T00:00:00Z alerts/for",
+		"rule/set promql/series min-age 3d", "rule/set promql/series min-age 1w", "rule/set promql/series ignore/label-value job",
+		"rule/set promql/series ignore/label-value instance", "rule/set promql/regexp smelly_selector"}
 	gDisables  = []string{"promql/series", "promql/rate", "alerts/template", "promql/regexp"}
 	gPlain     = []string{"managed by team a", "TODO tidy", "see runbook"}
 )
@@ -259,9 +263,11 @@ func (g *gen) file(maxRules int) gFile {
 // mutateRule changes the parsed content of a rule (never its kind).
 func (g *gen) mutateRule(ru *gRule) string {
 	r := g.r
-	// weights: expr 2, labels 3, for 1, annotations 2, control comment 1, name 1
-	c := r.Intn(10)
+	// weights: expr 2, labels 3, for 1, annotations 2, control comment 3, name 1
+	c := r.Intn(12)
 	switch c {
+	case 10, 11:
+		c = 5
 	case 7:
 		c = 2
 	case 8:
@@ -297,12 +303,49 @@ func (g *gen) mutateRule(ru *gRule) string {
 		}
 		fallthrough
 	case 5:
-		if len(ru.Ctl) > 0 {
-			ru.Ctl = ru.Ctl[1:]
-			return "ctl-del"
+		// comment-only edits: one control comment added, removed (any position) or replaced by another one (other type or other value)
+		cur := append([]string{}, ru.Ctl...)
+		fresh := func() string {
+			for try := 0; try < 30; try++ {
+				c := pick(r, gCtls)
+				dup := false
+				for _, x := range cur {
+					if x == c {
+						dup = true
+					}
+				}
+				if !dup {
+					return c
+				}
+			}
+			return ""
 		}
-		ru.Ctl = append(ru.Ctl, pick(r, gCtls))
-		return "ctl-add"
+		kind := func(c string) string { return strings.Join(strings.Fields(c)[:1], "") }
+		switch c := r.Intn(3); {
+		case len(cur) > 0 && c == 0:
+			i := r.Intn(len(cur))
+			tag := "ctl-del:" + kind(cur[i])
+			ru.Ctl = append(cur[:i], cur[i+1:]...)
+			return tag
+		case len(cur) > 0 && c == 1:
+			if n := fresh(); n != "" {
+				i := r.Intn(len(cur))
+				tag := "ctl-replace:" + kind(cur[i]) + "->" + kind(n)
+				cur[i] = n
+				ru.Ctl = cur
+				return tag
+			}
+			fallthrough
+		default:
+			n := fresh()
+			if n == "" {
+				ru.Ctl = cur[1:]
+				return "ctl-del:" + kind(cur[0])
+			}
+			pos := r.Intn(len(cur) + 1)
+			ru.Ctl = append(cur[:pos], append([]string{n}, cur[pos:]...)...)
+			return "ctl-add:" + kind(n)
+		}
 	default:
 		// rename the rule (same kind)
 		old := ru.Name
